@@ -20,6 +20,9 @@ type ProgOpts struct {
 	Log        bool // append side-effect markers to the global `log`
 	Params     int  // number of `param` names (a0..)
 	FailOps    bool // operations that raise runtime errors (1/0 via variables, bad index, call of non-callable)
+	NoCycles   bool // index assignments store integer literals only: no container can come to contain itself
+	// (String()/Equal() of a cyclic container recurse until the Go runtime aborts the process with
+	// "fatal error: stack overflow", which no recover() intercepts: known finding C06:fatal-stack-overflow)
 }
 
 // DefaultProgOpts is a mostly-valid mix of everything the VM model supports.
@@ -256,7 +259,7 @@ func (g *progGen) stmt(sb *strings.Builder, sc *scope, depth int, ind string) {
 		if v == "" {
 			v = g.varOfKind(sc, 'M')
 			if v != "" {
-				fmt.Fprintf(sb, "%s%s.%s = %s\n", ind, v, []string{"a", "b", "k"}[g.r.Intn(3)], g.exprK(sc, 1, 'I'))
+				fmt.Fprintf(sb, "%s%s.%s = %s\n", ind, v, []string{"a", "b", "k"}[g.r.Intn(3)], g.stored(sc))
 				return
 			}
 		}
@@ -267,7 +270,7 @@ func (g *progGen) stmt(sb *strings.Builder, sc *scope, depth int, ind string) {
 		if v == "" || (g.o.FailOps && g.r.Intn(12) == 0) {
 			v = sc.vars[g.r.Intn(len(sc.vars))]
 		}
-		fmt.Fprintf(sb, "%s%s[%s] = %s\n", ind, v, g.smallIdx(), g.exprK(sc, 1, 'I'))
+		fmt.Fprintf(sb, "%s%s[%s] = %s\n", ind, v, g.smallIdx(), g.stored(sc))
 	}
 }
 
@@ -373,6 +376,14 @@ func (g *progGen) expr(sc *scope, depth int) string {
 		return g.callExpr(sc, depth)
 	}
 	return g.atom(sc)
+}
+
+// stored is the right-hand side of an index assignment.
+func (g *progGen) stored(sc *scope) string {
+	if g.o.NoCycles {
+		return []string{"0", "1", "2", "7", "(-1)", "100"}[g.r.Intn(6)]
+	}
+	return g.exprK(sc, 1, 'I')
 }
 
 func (g *progGen) smallIdx() string {
